@@ -104,6 +104,9 @@ func VH_C03_CommitLoop(syncMode, nReq int) {
 		}
 		r.commits <- req
 	}
+	if vhChoose("reader_closing", 2) == 1 {
+		stop() // the reader is being closed: back-off sleeps between commit retries are interrupted
+	}
 	ctx, cancel := context.WithCancel(context.Background())
 	loopDone := make(chan struct{})
 	go func() {
@@ -143,32 +146,39 @@ func VH_C03_CommitLoop(syncMode, nReq int) {
 	vhReach("c03-commit-loop")
 }
 
-// H3: fetchOffsets + makeAssignments: start offset = committed offset, or StartOffset when there is none (-1).
-func VH_C03_Assignments(P int) {
+// H3: fetchOffsets + makeAssignments: start offset = committed offset, or StartOffset when there is none (-1);
+// T topics with the same partition ids and independent committed offsets.
+func VH_C03_Assignments(P, T int) {
 	start := vhInt64("StartOffset")
-	cg := &ConsumerGroup{config: ConsumerGroupConfig{ID: "g", Topics: []string{"A"}, StartOffset: start}}
+	topics := vhTopics[:T]
+	cg := &ConsumerGroup{config: ConsumerGroupConfig{ID: "g", Topics: topics, StartOffset: start}}
 	co := &vhCoordinator{}
-	subs := map[string][]int32{"A": {}}
-	committed := make([]int64, P)
-	resp := offsetFetchResponseV1Response{Topic: "A"}
-	for p := 0; p < P; p++ {
-		subs["A"] = append(subs["A"], int32(p))
-		committed[p] = vhInt64("committed")
-		vhAssume(committed[p] >= -1)
-		resp.PartitionResponses = append(resp.PartitionResponses, offsetFetchResponseV1PartitionResponse{Partition: int32(p), Offset: committed[p]})
+	subs := map[string][]int32{}
+	committed := map[string][]int64{}
+	for _, t := range topics {
+		resp := offsetFetchResponseV1Response{Topic: t}
+		for p := 0; p < P; p++ {
+			subs[t] = append(subs[t], int32(p))
+			c := vhInt64("committed")
+			vhAssume(c >= -1)
+			committed[t] = append(committed[t], c)
+			resp.PartitionResponses = append(resp.PartitionResponses, offsetFetchResponseV1PartitionResponse{Partition: int32(p), Offset: c})
+		}
+		co.fetchResp.Responses = append(co.fetchResp.Responses, resp)
 	}
-	co.fetchResp = offsetFetchResponseV1{Responses: []offsetFetchResponseV1Response{resp}}
 	offsets, err := cg.fetchOffsets(co, subs)
 	vhAssert(err == nil, "fetch-offsets-ok")
 	asg := cg.makeAssignments(subs, offsets)
-	vhAssert(len(asg["A"]) == P, "one-assignment-per-partition")
-	for p := 0; p < P; p++ {
-		a := asg["A"][p]
-		want := committed[p]
-		if want < 0 {
-			want = start
+	for _, t := range topics {
+		vhAssert(len(asg[t]) == P, "one-assignment-per-partition")
+		for p := 0; p < P && p < len(asg[t]); p++ {
+			a := asg[t][p]
+			want := committed[t][p]
+			if want < 0 {
+				want = start
+			}
+			vhAssert(vhAll(a.ID == p, a.Offset == want), "assignment-starts-at-the-committed-offset")
 		}
-		vhAssert(vhAll(a.ID == p, a.Offset == want), "assignment-starts-at-the-committed-offset")
 	}
 	vhReach("c03-assignments")
 }
